@@ -15,7 +15,9 @@ R1  publish last (T-ORDER over the validation pipeline).  pydantic runs the
     call other than logging) may follow it on a normal path, in the publishing
     function or in the validator that called it.  Accepted alternative: every
     fallible step after the publish is covered by a handler that stores None
-    back and re-raises.
+    back and re-raises.  The report shows, of the fallible statements after
+    the publish, one whose resolved callees are known to raise (and names the
+    exception), so that the message points at the step that makes a load fail.
 R2  frozen closure: every class of values reachable from Config through field
     annotations (pydantic models, dataclasses) is immutable.  For a model the
     effective `frozen` setting is computed the way pydantic merges it: nearest
@@ -32,8 +34,9 @@ R2  frozen closure: every class of values reachable from Config through field
 R3  guards, by null-ness of the singleton: every function that uses the
     singleton's value does so only where it is known not to be None; Config.get
     and both proxy methods return normally only when a configuration is active
-    (a refusal hidden in a shared helper counts, a silent `return None` does
-    not); on every path through the pipeline to the publish the singleton has
+    (a refusal hidden in a shared helper counts - reached by a call or by
+    reading a property of a repository class, which is a call without
+    arguments - a silent `return None` does not); on every path through the pipeline to the publish the singleton has
     been seen to be None, all other paths refuse; reset leaves it None on every
     path; nothing else clears it, except a failed load that clears *its own*
     publication (identity test against the instance being built).
@@ -41,25 +44,43 @@ R5  key normalisation keeps the overlay order: the normaliser walks the items
     of its input in insertion order and every item reaches a store into the
     result under its mapped name; no skip or store depends on what the result
     already holds (keep-first), so the later spelling of a field replaces the
-    earlier one.
+    earlier one.  `zip` over the mapping's own keys / values / items and lists
+    built from them one element per item (no filter, no reordering) is a walk
+    over its items.
 R4  precedence, by symbolic execution of Config.load: the data handed to
     validation is defaults <- file <- keyword arguments on every path (a file
     that was not given and empty keyword arguments count as empty layers).  The
     execution follows the layers through helpers, tuples and lists held in
     locals, records (NamedTuple / dataclass / plain class with __init__: built
-    by position, keyword and default, read by field, index, unpacking,
-    iteration, `_fields` + getattr, `_replace`), their methods and properties,
-    `reversed`, `functools.reduce`; the merge functions it judges are those the
-    execution really went through.  When the order is wrong and a layer was
+    by position, keyword and default, read by field, index, slice, unpacking,
+    iteration, `_fields` + getattr, `_replace`; a field of a mutable record
+    assigned after construction and a list grown by append / extend / insert /
+    `+=` are seen under every name that holds the object), their methods,
+    classmethods (`cls(...)`), properties and `__iter__`, generators (the
+    sequence of what they yield on the path) and `@contextmanager` functions
+    (what `with` binds), comprehensions over known sequences with their
+    filters, `zip`, `enumerate`, `reversed`, `functools.reduce`; a test of a
+    value the execution holds against None is decided, not forked; the merge
+    functions it judges are those the execution really went through.  When the order is wrong and a layer was
     put into a field or parameter named after another layer (`file=keywords`),
     that construction site is reported as the place of the mistake (the names
     only locate, they never decide).  Data touched by something the execution
-    cannot follow is UNDECIDED, never "layer missing".  Each step is the
+    cannot follow is UNDECIDED, never "layer missing".  Every load starts
+    from freshly read data: the execution is the first load of a process (a
+    module global or class attribute that starts as None is None), a table
+    stored into a module global or class attribute is *kept* beyond the call,
+    and merging a layer in place into a kept table (or into one that shares
+    sub-tables with it) is a violation - the next load starts from this load's
+    effective values; a copy is fresh again.  Each step is the
     recursive merge (a shallow merge of two non-empty layers loses nested
     keys), and the merge function itself, decided by cases on
     (base entry absent / scalar / table) x (overlay value scalar / table),
     recurses exactly when both sides are tables and lets the overlay value win
-    otherwise.
+    otherwise.  A merge written as several passes over the overlay's items
+    (keys selected by a comprehension, a loop over the selection,
+    `base.update({k: v for ... if ...})`) is decided the same way, for one
+    representative key: a later plain store overrides what was done to the
+    entry before.
 """
 
 from __future__ import annotations
@@ -141,17 +162,68 @@ class Nullness:
         self.touch = {q for q, fi in m.functions.items()
                       if any(isinstance(n, ast.Name) and n.id == GLOBAL for n in walk_no_nested(fi.node))}
         self._relevant = {}
+        self._props = {}
         self._memo = {}
         self._active = set()
         self.at_store = {}   # id(stmt) -> union of in-states at stores of the global
         self.at_use = {}     # id(Name node) -> (fi, node, union of states)
         self.cfgs = {}
 
+    def property_of(self, fi, e):
+        """the getter that runs when `e` (an attribute load) is evaluated: `obj.attr` with obj of a repository class
+        whose `attr` is a property; None otherwise.  Reading a property is a call without arguments."""
+        if not (isinstance(e, ast.Attribute) and isinstance(e.ctx, ast.Load)):
+            return None
+        k = (id(e), fi.file, fi.qualname)
+        if k not in self._props:
+            self._props[k] = None
+            owner = expr_class(self.prog, fi, e.value)
+            if owner is not None:
+                meth = owner.find_method(e.attr)
+                if meth is not None and any(d.split('(')[0].split('.')[-1] in ('property', 'cached_property') for d in meth.decorators()):
+                    self._props[k] = meth
+        return self._props[k]
+
+    def invocations(self, fi, h):
+        """(node, callee, call or None) for the resolved calls and the property reads of this module in h, in
+        evaluation order (arguments and receivers before the call that takes them)"""
+        out = []
+        for x in walk_no_nested(h):
+            if isinstance(x, ast.Call):
+                callee = resolve_call(self.prog, fi, x)
+                if callee is not None:
+                    out.append(((getattr(x, 'end_lineno', x.lineno), getattr(x, 'end_col_offset', 0)), x, callee, x))
+            elif isinstance(x, ast.Attribute):
+                callee = self.property_of(fi, x)
+                if callee is not None:
+                    out.append(((getattr(x, 'end_lineno', x.lineno), getattr(x, 'end_col_offset', 0)), x, callee, None))
+        out.sort(key=lambda t: t[0])
+        return [(x, callee, c) for _, x, callee, c in out]
+
+    def _reach(self, roots):
+        """functions reachable through resolved calls and property reads"""
+        seen, st = {}, list(roots)
+        while st:
+            f = st.pop()
+            k = (f.file, f.qualname)
+            if k in seen:
+                continue
+            seen[k] = f
+            for g in closure(self.prog, [f]):
+                if (g.file, g.qualname) not in seen:
+                    st.append(g)
+                if g.module is self.m:
+                    for x in walk_no_nested(g.node):
+                        p = self.property_of(g, x)
+                        if p is not None and (p.file, p.qualname) not in seen:
+                            st.append(p)
+        return list(seen.values())
+
     def relevant(self, callee) -> bool:
         k = (callee.file, callee.qualname)
         if k not in self._relevant:
             self._relevant[k] = False
-            self._relevant[k] = any(f.module is self.m and f.qualname in self.touch for f in closure(self.prog, [callee]))
+            self._relevant[k] = any(f.module is self.m and f.qualname in self.touch for f in self._reach([callee]))
         return self._relevant[k]
 
     def is_ref(self, fi, e) -> bool:
@@ -278,10 +350,9 @@ class Nullness:
                                     and self.is_ref(fi, x) and not self._is_snapshot_rhs(x):
                                 r = self.at_use.setdefault(id(x), [fi, x, frozenset()])
                                 r[2] = r[2] | S
-                    for c in calls_in(h):
-                        callee = resolve_call(self.prog, fi, c)
-                        if callee is not None and callee.module is self.m and self.relevant(callee):
-                            S = self.flow(callee, S, emit, self.arg_nullness(fi, callee, c))
+                    for _, callee, c in self.invocations(fi, h):
+                        if callee.module is self.m and self.relevant(callee):
+                            S = self.flow(callee, S, emit, self.arg_nullness(fi, callee, c) if c is not None else ())
                 if node.kind == 'stmt' and declared:
                     st = node.stmt
                     tg = []
@@ -351,6 +422,7 @@ def rule_normalise(ctx):
                     and len(src.args) == 1:
                 wrappers.append(src.func.id)
                 src = src.args[0]
+            src = _zipped_mapping(fn, src, params) or src
             im = iterated_mapping(src)
             if im is None or not (isinstance(im[0], ast.Name) and im[0].id in params):
                 continue
@@ -370,6 +442,38 @@ def rule_normalise(ctx):
                 continue
             _r5_loop(ctx, fn, owner, im[0].id)
     ctx.floor('C18-R5', found, 1, 'item loops of the key normaliser')
+
+
+def _zipped_mapping(fn, it, params):
+    """`zip(A, B, ...)` walks the items of a parameter mapping in insertion order when every operand is that mapping's
+    own keys / values / items, or a list built from them one element per item (a comprehension without filter, held in
+    a local bound once or written in place), none of them reordered: the mapping, else None"""
+    if not (isinstance(it, ast.Call) and isinstance(it.func, ast.Name) and it.func.id == 'zip' and it.args
+            and all(k.arg == 'strict' for k in it.keywords)):
+        return None
+    found = set()
+    for a in it.args:
+        e = a
+        if isinstance(e, ast.Name) and e.id not in params:
+            ds = local_defs(fn.node, e.id)
+            if len(ds) != 1 or not isinstance(ds[0], (ast.Assign, ast.AnnAssign)) or ds[0].value is None:
+                return None
+            e = ds[0].value
+        while isinstance(e, ast.Call) and isinstance(e.func, ast.Name) and e.func.id in ('list', 'tuple', 'iter') and len(e.args) == 1 \
+                and not e.keywords:
+            e = e.args[0]
+        if isinstance(e, (ast.ListComp, ast.GeneratorExp)):
+            if len(e.generators) != 1 or e.generators[0].ifs:
+                return None
+            e = e.generators[0].iter
+        if any(isinstance(x, ast.Call) and isinstance(x.func, ast.Name) and x.func.id in ('sorted', 'reversed', 'set', 'frozenset')
+               for x in ast.walk(e)):
+            return None
+        im = iterated_mapping(e)
+        if im is None or not (isinstance(im[0], ast.Name) and im[0].id in params):
+            return None
+        found.add(im[0].id)
+    return ast.Name(id=found.pop(), ctx=ast.Load()) if len(found) == 1 else None
 
 
 def _r5_loop(ctx, fn, lp: ast.For, src: str):
@@ -479,8 +583,9 @@ class MergeFn:
             self.why = 'not a two-parameter function'
             return
         loops = [x for x in walk_no_nested(fi.node) if isinstance(x, ast.For)]
-        if len(loops) != 1:
-            self.why = f'{len(loops)} loops'
+        comps = [x for x in walk_no_nested(fi.node) if isinstance(x, (ast.ListComp, ast.SetComp, ast.DictComp, ast.GeneratorExp))]
+        if len(loops) != 1 or comps:
+            self._run_passes(ps)      # the items are walked more than once (selection, then stores)
             return
         lp = loops[0]
         mi = map_iteration(lp.target, lp.iter)
@@ -522,6 +627,132 @@ class MergeFn:
     @staticmethod
     def _nm(k):
         return {'absent': 'absent', 'scalar': 'a plain value', 'dict': 'a table'}[k]
+
+    # -- a merge written as several passes over the overlay's items ---------------------------------------------------
+    # (keys selected by a comprehension, a loop over the selection, `base.update({... for ... if ...})`): the effect on
+    # base[key] of the whole body is computed for one representative key, case by case, as for the single loop.
+    def _run_passes(self, ps):
+        fi = self.fi
+        walked = set()
+        for x in walk_no_nested(fi.node):
+            its = [(x.target, x.iter)] if isinstance(x, ast.For) else \
+                [(g.target, g.iter) for g in x.generators] if isinstance(x, (ast.ListComp, ast.SetComp, ast.DictComp, ast.GeneratorExp)) else []
+            for t, it in its:
+                mi = map_iteration(t, it)
+                if mi is not None and mi[0] in ps:
+                    walked.add(mi[0])
+        if len(walked) != 1:
+            self.why = 'does not walk the items of exactly one parameter mapping'
+            return
+        self.overlay = walked.pop()
+        self.base = next(p for p in ps if p != self.overlay)
+        self.key = self.val = None
+        rets = [r for r in walk_no_nested(fi.node) if isinstance(r, ast.Return)]
+        self.returns_base = bool(rets) and all(isinstance(r.value, ast.Name) and r.value.id == self.base for r in rets) \
+            and all(any(r is s_ for s_ in fi.node.body) for r in rets)
+        bad = None
+        for case in self.CASES:
+            try:
+                eff = self._exec_passes(fi.node.body, case)
+            except _Undecided as u:
+                self.ok, self.why = None, f'case base={case[0]}, overlay={case[1]}: {u}'
+                return
+            want = 'merge' if case == ('dict', 'dict') else 'replace'
+            self.detail[case] = eff
+            if eff != want and bad is None:
+                bad = (case, eff, want)
+        if bad:
+            case, eff, want = bad
+            self.ok = False
+            what = {'merge': 'merges the two tables key by key', 'replace': 'stores the overlay value', 'shallow': 'merges the tables one level deep only',
+                    'nothing': 'leaves the base entry as it is', 'error': 'fails'}.get(eff, eff)
+            self.why = (f'when the base entry is {self._nm(case[0])} and the overlay value is {self._nm(case[1])} the function {what}, '
+                        f'but the overlay must {"be merged into the base table recursively" if want == "merge" else "replace the base entry"}')
+        else:
+            self.ok = True
+            self.why = 'recurses exactly when both sides are tables; otherwise the overlay value replaces the base entry'
+
+    def _bind(self, target, it, env, case=None):
+        """binds the key / value variables for one walk over the overlay's items (or over a selection of them made
+        before) and says whether the representative key is among the items walked"""
+        mi = map_iteration(target, it)
+        if mi is not None and mi[0] == self.overlay:
+            self.key, self.val = mi[1], mi[2]
+            if self.key is None:
+                raise _Undecided(f'`{norm(it)[:40]}` is walked without binding the key')
+            return True
+        src = it
+        while isinstance(src, ast.Call) and call_name(src) in ('list', 'tuple', 'sorted', 'set', 'frozenset', 'iter') and len(src.args) == 1:
+            src = src.args[0]
+        if isinstance(src, ast.Name) and isinstance(env.get(src.id), tuple) and env[src.id][0] == 'keys' and isinstance(target, ast.Name):
+            self.key, self.val = target.id, None
+            return env[src.id][1]
+        if isinstance(src, (ast.ListComp, ast.SetComp, ast.GeneratorExp)) and isinstance(target, ast.Name) and case is not None:
+            sel = self._selection(src, case, env)      # the selection written in place
+            if sel is not None and sel[0] == 'keys':
+                self.key, self.val = target.id, None
+                return sel[1]
+        if mi is not None and isinstance(env.get(mi[0]), tuple) and env[mi[0]][0] == 'sub' and mi[1] is not None:
+            self.key, self.val = mi[1], mi[2]
+            return env[mi[0]][1]
+        raise _Undecided(f'walk over `{norm(it)[:40]}` is outside the merge idiom')
+
+    def _selection(self, v, case, env):
+        """('keys', present) / ('sub', present, effect) for a comprehension that selects items of the overlay"""
+        while isinstance(v, ast.Call) and call_name(v) in ('list', 'tuple', 'sorted', 'set', 'frozenset', 'dict') and len(v.args) == 1 \
+                and not v.keywords:
+            v = v.args[0]
+        if not isinstance(v, (ast.ListComp, ast.SetComp, ast.GeneratorExp, ast.DictComp)) or len(v.generators) != 1:
+            return None
+        gen = v.generators[0]
+        present = self._bind(gen.target, gen.iter, env, case)
+        present = present and all(self._truth(c, case, env) for c in gen.ifs)
+        if isinstance(v, ast.DictComp):
+            if not (isinstance(v.key, ast.Name) and v.key.id == self.key):
+                raise _Undecided(f'`{norm(v)[:50]}` stores under another key')
+            return ('sub', present, self._value_effect(v.value, case, env) if present else 'nothing')
+        if not (isinstance(v.elt, ast.Name) and v.elt.id == self.key):
+            raise _Undecided(f'`{norm(v)[:50]}` does not select keys')
+        return ('keys', present)
+
+    def _exec_passes(self, body, case):
+        env, effs = {}, []
+        for st in body:
+            if isinstance(st, ast.Expr) and (isinstance(st.value, ast.Constant) or (isinstance(st.value, ast.Call) and _is_logging(st.value))):
+                continue
+            if isinstance(st, ast.Pass):
+                continue
+            if isinstance(st, ast.Return):
+                break
+            if isinstance(st, (ast.Assign, ast.AnnAssign)) and st.value is not None:
+                tgts = st.targets if isinstance(st, ast.Assign) else [st.target]
+                sel = self._selection(st.value, case, env) if len(tgts) == 1 and isinstance(tgts[0], ast.Name) else None
+                if sel is None:
+                    raise _Undecided(f'statement `{norm(st)[:60]}` is outside the merge idiom')
+                env[tgts[0].id] = sel
+                continue
+            if isinstance(st, ast.For) and not st.orelse:
+                if self._bind(st.target, st.iter, env, case):
+                    effs.append(self._exec(st.body, case, dict(env)))
+                continue
+            arg = None
+            if isinstance(st, ast.Expr) and isinstance(st.value, ast.Call) and isinstance(st.value.func, ast.Attribute) \
+                    and st.value.func.attr == 'update' and isinstance(st.value.func.value, ast.Name) and st.value.func.value.id == self.base \
+                    and len(st.value.args) == 1 and not st.value.keywords:
+                arg = st.value.args[0]
+            elif isinstance(st, ast.AugAssign) and isinstance(st.op, ast.BitOr) and isinstance(st.target, ast.Name) and st.target.id == self.base:
+                arg = st.value
+            if arg is not None:
+                sel = env.get(arg.id) if isinstance(arg, ast.Name) else self._selection(arg, case, env)
+                if not (isinstance(sel, tuple) and sel[0] == 'sub'):
+                    raise _Undecided(f'`{norm(st)[:60]}`: cannot tell which items are stored')
+                effs.append(sel[2] if sel[1] else 'nothing')
+                continue
+            raise _Undecided(f'statement `{norm(st)[:60]}` is outside the merge idiom')
+        done = [e for e in effs if e != 'nothing']
+        if len(set(done)) > 1 and done[-1] != 'replace':    # a final plain store overrides whatever was done to the entry before
+            raise _Undecided(f'the entry is handled more than once ({", then ".join(done)})')
+        return done[-1] if done else 'nothing'
 
     # -- tiny evaluator for one loop iteration under a case ------------------------------------------------------
     def _kind(self, e, case, env):
@@ -577,6 +808,8 @@ class MergeFn:
                     return (b != 'absent') == isinstance(op, ast.In)
                 if isinstance(tgt, ast.Name) and tgt.id == self.overlay:
                     return isinstance(op, ast.In)
+                if isinstance(tgt, ast.Name) and isinstance(env.get(tgt.id), tuple) and env[tgt.id][0] in ('keys', 'sub'):
+                    return env[tgt.id][1] == isinstance(op, ast.In)     # a selection of the overlay's keys made before
             if isinstance(c, ast.Constant) and c.value is None and isinstance(op, (ast.Is, ast.IsNot, ast.Eq, ast.NotEq)):
                 k = self._kind(a, case, env)
                 if k == 'error':
@@ -735,26 +968,73 @@ def _real(u):
     return None if isinstance(u, _Extra) else u
 
 
-class _Cell:
-    __slots__ = ('layers', 'shallow', 'unknown')
+class _At(str):
+    """a finding of the execution together with the function and line of the construct that causes it"""
+    fi = None
+    line = None
 
-    def __init__(self, layers=(), shallow=None, unknown=None):
+
+class _Cell:
+    __slots__ = ('layers', 'shallow', 'unknown', 'kept', 'stale')
+
+    def __init__(self, layers=(), shallow=None, unknown=None, kept=None, stale=None):
         self.layers, self.shallow, self.unknown = tuple(layers), shallow, unknown
+        self.kept = kept      # where the table (or its sub-tables) is kept beyond this call: a module global, a class attribute
+        self.stale = stale    # a merge into a table that is kept beyond this call
 
     def copy(self):
-        return _Cell(self.layers, self.shallow, self.unknown)
+        return _Cell(self.layers, self.shallow, self.unknown, self.kept, self.stale)
 
 
 class _State:
-    def __init__(self, env=None, heap=None, absent=frozenset(), given=frozenset(), notes=()):
+    def __init__(self, env=None, heap=None, absent=frozenset(), given=frozenset(), notes=(), subst=()):
         self.env = dict(env or {})
         self.heap = {k: v.copy() for k, v in (heap or {}).items()}
         self.absent = absent      # layers known to be empty on this path ('F': no file given, 'K': no keyword arguments)
         self.given = given        # layers known to be non-empty / present
         self.notes = tuple(notes)  # (line, text): a layer bound to a field / parameter named after another layer
+        self.subst = tuple(subst)  # (old record value, new record value): a mutable record whose field was assigned
+        self.glob = {}             # (owner, name) -> value: module globals / class attributes assigned during this load
 
     def fork(self):
-        return _State(self.env, self.heap, self.absent, self.given, self.notes)
+        s2 = _State(self.env, self.heap, self.absent, self.given, self.notes, self.subst)
+        s2.glob = dict(self.glob)
+        return s2
+
+    def current(self, v):
+        """v with every record in it that has been assigned to since replaced by what it is now (records are values
+        here; identity of the value object stands for identity of the instance)"""
+        if not self.subst or not isinstance(v, tuple) or not v:
+            return v
+        for old, new in self.subst:
+            if v is old:
+                v = new
+        if v[0] == 'tuple':
+            els = [self.current(x) for x in v[1]]
+            if any(a is not b for a, b in zip(els, v[1])):
+                v = ('tuple', els) + tuple(v[2:])
+        elif v[0] == 'rec':
+            flds = tuple((n, self.current(x)) for n, x in v[2])
+            if any(a[1] is not b[1] for a, b in zip(flds, v[2])):
+                # a record inside a record: the outer instance is still the same object
+                new = ('rec', v[1], flds, v[3])
+                self.subst = self.subst + ((v, new),)
+                v = new
+        return v
+
+    def set_field(self, rec, attr, val):
+        """`<rec>.attr = val` on a mutable record: every name (of this frame now, of the callers' frames when they are
+        restored) that holds this instance sees the new field"""
+        flds = tuple((n, (val if n == attr else x)) for n, x in rec[2])
+        if attr not in dict(rec[2]):
+            flds = flds + ((attr, val),)
+        return self.replace(rec, ('rec', rec[1], flds, rec[3]))
+
+    def replace(self, old, new):
+        """the mutable object that the value `old` stands for is now `new`, under every name that holds it"""
+        self.subst = self.subst + ((old, new),)
+        self.env = {k: self.current(x) for k, x in self.env.items()}
+        return new
 
     def new_cell(self, layers=(), shallow=None, unknown=None):
         i = len(self.heap) + 1
@@ -775,6 +1055,7 @@ class LoadExec:
         self.merge_fns = merge_fns     # {(file, qualname): MergeFn}
         self.finals = []               # (line, layers, shallow, unknown, absent, notes)
         self.used = set()              # merge functions the execution went through
+        self._load_side = None
         self.count = 0
 
     # -- helpers -----------------------------------------------------------------------------------------------------
@@ -815,6 +1096,45 @@ class LoadExec:
                     if st.value is not None:
                         defaults[st.target.id] = (k, st.value)
         return names, defaults, is_nt
+
+    @staticmethod
+    def _class_slot(rc, attr):
+        """(class, initial value expression) of a plain class attribute `attr` found on rc's MRO"""
+        for k in rc.mro():
+            for st in k.node.body:
+                if isinstance(st, ast.Assign) and any(isinstance(t, ast.Name) and t.id == attr for t in st.targets):
+                    return k, st.value
+                if isinstance(st, ast.AnnAssign) and isinstance(st.target, ast.Name) and st.target.id == attr and st.value is not None:
+                    return k, st.value
+        return None
+
+    def _keep(self, s, v, where, line):
+        """the value is stored where it outlives this call"""
+        for ci in self._cells_of(v):
+            s.heap[ci].kept = s.heap[ci].kept or f'the table is kept in {where} (line {int(line)}) beyond this load'
+
+    @classmethod
+    def _cells_of(cls, v):
+        """ids of the dict cells reachable from a value (through tuples, lists and record fields)"""
+        if not isinstance(v, tuple) or not v:
+            return []
+        if v[0] == 'cell':
+            return [v[1]]
+        if v[0] in ('tuple', 'ctx'):
+            return [c for x in (v[1] if v[0] == 'tuple' else [v[1]]) for c in cls._cells_of(x)]
+        if v[0] == 'rec':
+            return [c for _, x in v[2] for c in cls._cells_of(x)]
+        return []
+
+    @staticmethod
+    def _record_frozen(rc) -> bool:
+        for k in rc.mro():
+            for d in k.node.decorator_list:
+                if 'dataclass' in ast.unparse(d):
+                    fz = kwarg(d, 'frozen') if isinstance(d, ast.Call) else None
+                    if isinstance(fz, ast.Constant) and fz.value is True:
+                        return True
+        return False
 
     @staticmethod
     def _elements(v):
@@ -904,11 +1224,22 @@ class LoadExec:
             return
         yield ('unk', norm(e)[:30]), s
 
-    def _merge(self, st, base, over, how, line):
+    def _merge(self, st, base, over, how, line, fi=None):
         """in-place merge of cell `over` into cell `base`"""
         b, o = st.heap[base[1]], st.heap[over[1]]
         if o.unknown and not _real(b.unknown):
             b.unknown = o.unknown
+        if b.kept and not b.stale and [x for x in o.layers if x not in st.absent and x not in b.layers]:
+            nm = {'D': 'defaults', 'F': 'file', 'K': 'keyword arguments'}
+            b.stale = _At(f'{b.kept}, and line {int(line)} merges the {"+".join(nm[x] for x in dict.fromkeys(o.layers) if x not in st.absent)} '
+                          'into it in place: what one load merges is still there for the next load (after a reset, or after a failed '
+                          'load), whose effective values are then no longer the packaged defaults overlaid by its own file and keyword '
+                          'arguments')
+            b.stale.fi, b.stale.line = fi, line
+        if o.stale and not b.stale:
+            b.stale = o.stale
+        if o.kept and not b.kept:
+            b.kept = o.kept     # the merge stores the overlay's sub-tables into the base: they are shared from now on
         if o.shallow and not b.shallow:
             b.shallow = o.shallow
         if how == 'shallow':
@@ -916,8 +1247,9 @@ class LoadExec:
             live_o = [x for x in o.layers if x not in st.absent]
             if live_b and live_o and not b.shallow:
                 nm = {'D': 'defaults', 'F': 'file', 'K': 'keyword arguments'}
-                b.shallow = (f'line {line}: {"+".join(nm[x] for x in live_b)} and {"+".join(nm[x] for x in live_o)} are combined '
-                             'one level deep')
+                b.shallow = _At(f'line {int(line)}: {"+".join(nm[x] for x in live_b)} and {"+".join(nm[x] for x in live_o)} are combined '
+                                'one level deep')
+                b.shallow.fi, b.shallow.line = fi, line
         b.layers = b.layers + o.layers
 
     def _facts(self, fi, test, truth, st):
@@ -946,6 +1278,12 @@ class LoadExec:
             v = self._peek(fi, test.left, st)
             if v == ('path', 'F'):
                 layer, positive = 'F', isinstance(test.ops[0], (ast.IsNot, ast.NotEq))
+            elif isinstance(v, tuple) and v and v[0] in ('none', 'cell', 'tuple', 'rec', 'const', 'fh', 'text', 'path', 'class'):
+                # the value is at hand: the test is decided
+                holds = (v[0] == 'none') == isinstance(test.ops[0], (ast.Is, ast.Eq))
+                if holds == truth:
+                    yield st.fork()
+                return
         else:
             e = test
             if isinstance(e, ast.Call) and call_name(e) in ('len', 'bool') and len(e.args) == 1:
@@ -977,7 +1315,35 @@ class LoadExec:
     def _peek(self, fi, e, st):
         """value of a side-effect-free expression without forking (None when it is not that simple)"""
         if isinstance(e, ast.Name):
-            return st.env.get(e.id)
+            if e.id in st.env:
+                return st.env[e.id]
+            if (fi.module.relpath, e.id) in st.glob:
+                return st.glob[(fi.module.relpath, e.id)]
+            return self._initial_global(fi, e.id)
+        if isinstance(e, ast.Attribute) and isinstance(e.value, ast.Name):
+            v = st.env.get(e.value.id, self._class_value(fi, e.value.id))
+            if isinstance(v, tuple) and v[0] == 'class':
+                slot = self._class_slot(v[1], e.attr)
+                if slot is not None:
+                    if (slot[0].name, e.attr) in st.glob:
+                        return st.glob[(slot[0].name, e.attr)]
+                    if isinstance(slot[1], ast.Constant) and slot[1].value is None:
+                        return ('none',)
+        return None
+
+    def _initial_global(self, fi, name):
+        """('none',) for a module global that starts as None and is written only by the functions of this load (the
+        execution is the first load of a process; what it keeps there is marked as kept)"""
+        r = self.prog.resolve_name(fi.module, name)
+        if isinstance(r, tuple) and r[0] == 'const' and name != GLOBAL:
+            init = r[1].constants[r[2]]
+            if isinstance(init, ast.Constant) and init.value is None:
+                writers = [f for f in r[1].functions.values()
+                           if any(isinstance(n, ast.Global) and name in n.names for n in walk_no_nested(f.node))]
+                if self._load_side is None:
+                    self._load_side = {(f.file, f.qualname) for f in closure(self.prog, [self.ld])}
+                if all((f.file, f.qualname) in self._load_side for f in writers):
+                    return ('none',)
         return None
 
     # -- expressions ---------------------------------------------------------------------------------------------------
@@ -1001,7 +1367,13 @@ class LoadExec:
             if e.id in st.env:
                 yield st.env[e.id], st
                 return
+            if (fi.module.relpath, e.id) in st.glob:
+                yield st.glob[(fi.module.relpath, e.id)], st
+                return
             r = self.prog.resolve_name(fi.module, e.id)
+            if isinstance(r, ClassInfo):
+                yield ('class', r), st
+                return
             if isinstance(r, tuple) and r[0] == 'const':
                 yield from self.eval(FunctionInfo('<module>', fi.node, r[1]), r[1].constants[r[2]], st, depth)
                 return
@@ -1049,10 +1421,53 @@ class LoadExec:
                     else:
                         yield ('unk', norm(e)[:30]), s2
             return
+        if isinstance(e, (ast.ListComp, ast.GeneratorExp)) and len(e.generators) == 1 and not e.generators[0].is_async:
+            gen = e.generators[0]
+            for itv, s0 in self.eval(fi, gen.iter, st, depth):
+                seq = self._elements(itv)
+                if seq is None:
+                    for ci in {c for x in ast.walk(e) if isinstance(x, ast.Name) for c in self._cells_of(s0.env.get(x.id))}:
+                        s0.heap[ci].unknown = _real(s0.heap[ci].unknown) or f'line {e.lineno}: used in a comprehension over a sequence the execution does not know'
+                    yield ('unk', 'comprehension'), s0
+                    continue
+                bound = [n.id for n in ast.walk(gen.target) if isinstance(n, ast.Name)]
+                saved = {n: s0.env[n] for n in bound if n in s0.env}
+                outs = [([], s0)]
+                for el in seq:
+                    nxt = []
+                    for vals, s in outs:
+                        s = s.fork()
+                        self._assign(gen.target, el, s)
+                        kept = [s]
+                        for cond in gen.ifs:
+                            kept = [s2 for s1 in kept for s2 in self._facts(fi, cond, True, s1)]
+                        dropped, cur = [], [s]
+                        for cond in gen.ifs:
+                            dropped += [s2 for s1 in cur for s2 in self._facts(fi, cond, False, s1)]
+                            cur = [s2 for s1 in cur for s2 in self._facts(fi, cond, True, s1)]
+                        for s1 in kept:
+                            nxt += [(vals + [v], s2) for v, s2 in self.eval(fi, e.elt, s1, depth)]
+                        nxt += [(vals, s1) for s1 in dropped]
+                    outs = nxt
+                    if len(outs) > self.LIMIT:
+                        raise _Undecided('too many paths through a comprehension in load')
+                for vals, s in outs:
+                    for n in bound:
+                        s.env.pop(n, None)
+                    s.env.update(saved)
+                    yield ('tuple', vals) + (('list',) if isinstance(e, ast.ListComp) else ()), s
+            return
         if isinstance(e, ast.Attribute):
             for v, s in self.eval(fi, e.value, st, depth):
                 if isinstance(v, tuple) and v[0] == 'rec':
                     yield from self._rec_attr(fi, e, v, s, depth)
+                elif isinstance(v, tuple) and v[0] == 'class' and self._class_slot(v[1], e.attr) is not None:
+                    # a class attribute: what this load stored there, else what the class body says (first load of the process)
+                    k, init = self._class_slot(v[1], e.attr)
+                    if (k.name, e.attr) in s.glob:
+                        yield s.glob[(k.name, e.attr)], s
+                    else:
+                        yield from self.eval(FunctionInfo('<class>', fi.node, k.module), init, s, depth)
                 elif isinstance(v, tuple) and v[0] == 'path':
                     yield v, s       # .parent / .name of a path keep telling which file it is about
                 else:
@@ -1063,6 +1478,24 @@ class LoadExec:
             if isinstance(idx, ast.UnaryOp) and isinstance(idx.op, ast.USub) and isinstance(idx.operand, ast.Constant) \
                     and isinstance(idx.operand.value, int):
                 idx = ast.Constant(-idx.operand.value)
+            if isinstance(idx, ast.Slice):
+                def bound(b):
+                    if b is None:
+                        return None
+                    if isinstance(b, ast.UnaryOp) and isinstance(b.op, ast.USub) and isinstance(b.operand, ast.Constant) \
+                            and isinstance(b.operand.value, int):
+                        return -b.operand.value
+                    if isinstance(b, ast.Constant) and isinstance(b.value, int) and not isinstance(b.value, bool):
+                        return b.value
+                    return 'x'
+                lo, hi, step = bound(idx.lower), bound(idx.upper), bound(idx.step)
+                for v, s in self.eval(fi, e.value, st, depth):
+                    seq = self._elements(v)
+                    if seq is not None and 'x' not in (lo, hi, step) and step != 0:
+                        yield ('tuple', seq[lo:hi:step]) + (('list',) if v[0] == 'tuple' and v[2:] == ('list',) else ()), s
+                    else:
+                        yield ('unk', norm(e)[:30]), s
+                return
             if isinstance(idx, ast.Constant) and isinstance(idx.value, int) and not isinstance(idx.value, bool):
                 for v, s in self.eval(fi, e.value, st, depth):
                     seq = self._elements(v)
@@ -1088,7 +1521,7 @@ class LoadExec:
             res = s.new_cell()
             for val in vals:
                 if isinstance(val, tuple) and val[0] == 'cell':
-                    self._merge(s, res, val, 'shallow', line)
+                    self._merge(s, res, val, 'shallow', line, fi)
                 elif isinstance(val, tuple) and val[0] == 'literal':
                     s.heap[res[1]].unknown = s.heap[res[1]].unknown or _Extra(f'line {line}: literal entry {val[1]} added to the data')
                 else:
@@ -1110,7 +1543,12 @@ class LoadExec:
                 yield ('config',), s
             return
         # an instance of a repository class that is not a model: NamedTuple / dataclass / plain class, kept by field
-        rc = self.prog.resolve_class_expr(fi.module, c.func) if isinstance(c.func, (ast.Name, ast.Attribute)) else None
+        rc = None
+        if isinstance(c.func, ast.Name) and c.func.id in st.env:
+            held = st.env[c.func.id]      # `cls(...)` inside a classmethod of the record
+            rc = held[1] if isinstance(held, tuple) and held[0] == 'class' else None
+        elif isinstance(c.func, (ast.Name, ast.Attribute)):
+            rc = self.prog.resolve_class_expr(fi.module, c.func)
         if rc is not None and not any(b.split('.')[-1] in ('BaseModel', 'CIBaseModel') for k in rc.mro() for b in k.base_exprs):
             built = self._construct(fi, c, rc, st, depth)
             if built is not None:
@@ -1123,6 +1561,9 @@ class LoadExec:
                         yield dict(v[2])[nv[1]], s2
                     else:
                         yield ('unk', cn), s2
+            return
+        if cn in ('tuple', 'list') and not c.args and not c.keywords:
+            yield ('tuple', []) + (('list',) if cn == 'list' else ()), st
             return
         if cn in ('reversed', 'tuple', 'list', 'iter') and len(c.args) == 1 and not c.keywords:
             for v, s in self.eval(fi, c.args[0], st, depth):
@@ -1168,7 +1609,7 @@ class LoadExec:
                     for ov, s2 in self.eval(fi, args[mf.overlay], s1, depth):
                         if isinstance(bv, tuple) and bv[0] == 'cell' and isinstance(ov, tuple) and ov[0] == 'cell':
                             if bv[1] != ov[1]:
-                                self._merge(s2, bv, ov, 'deep', c.lineno)
+                                self._merge(s2, bv, ov, 'deep', c.lineno, fi)
                             yield (bv if mf.returns_base else ('none',)), s2
                         elif isinstance(bv, tuple) and bv[0] == 'cell':
                             s2.heap[bv[1]].unknown = _real(s2.heap[bv[1]].unknown) or f'line {c.lineno}: cannot tell what `{norm(args[mf.overlay])[:40]}` holds'
@@ -1237,7 +1678,7 @@ class LoadExec:
             for bv, s1 in self.eval(fi, c.func.value, st, depth):
                 for ov, s2 in self.eval(fi, c.args[0], s1, depth):
                     if isinstance(bv, tuple) and bv[0] == 'cell' and isinstance(ov, tuple) and ov[0] == 'cell':
-                        self._merge(s2, bv, ov, 'shallow', c.lineno)
+                        self._merge(s2, bv, ov, 'shallow', c.lineno, fi)
                     elif isinstance(bv, tuple) and bv[0] == 'cell':
                         s2.heap[bv[1]].unknown = _real(s2.heap[bv[1]].unknown) or f'line {c.lineno}: update() with unidentified data'
                     yield ('none',), s2
@@ -1249,8 +1690,33 @@ class LoadExec:
         if _is_logging(c) or cn in ('len', 'list', 'sorted', 'isinstance', 'bool', 'repr', 'print', 'tuple', 'set', 'type'):
             yield ('unk', cn), st
             return
+        if cn in ('zip', 'enumerate') and c.args and not any(isinstance(a, ast.Starred) for a in c.args) and \
+                all(k.arg == 'strict' for k in c.keywords):
+            outs = [([], st)]
+            for a in c.args:
+                outs = [(vals + [v], s2) for vals, s in outs for v, s2 in self.eval(fi, a, s, depth)]
+            for vals, s in outs:
+                seqs = [self._elements(v) for v in vals]
+                if any(q is None for q in seqs) or (cn == 'enumerate' and len(seqs) != 1):
+                    for ci in {x for v in vals for x in self._cells_of(v)}:
+                        s.heap[ci].unknown = _real(s.heap[ci].unknown) or f'line {c.lineno}: passed to `{cn}` with a sequence the execution does not know'
+                    yield ('unk', cn), s
+                elif cn == 'zip':
+                    yield ('tuple', [('tuple', list(t)) for t in zip(*seqs)]), s
+                else:
+                    yield ('tuple', [('tuple', [('const', i), x]) for i, x in enumerate(seqs[0])]), s
+            return
         # a resolved repository helper: execute it
         if callee is not None and depth < 4 and callee.name not in ('__init__',):
+            if self._is_generator(callee):
+                # a generator: the sequence of what it yields on this path (a @contextmanager: what `with` binds)
+                cm = any(d.split('(')[0].split('.')[-1] == 'contextmanager' for d in callee.decorators())
+                for v, s in self._inline(fi, c, callee, st, depth, gen=True):
+                    if cm:
+                        yield (('ctx', v[1][0]) if len(v[1]) == 1 else ('unk', cn)), s
+                    else:
+                        yield v, s
+                return
             yield from self._inline(fi, c, callee, st, depth)
             return
         # a method the resolver could not place: look at what the receiver is on this path
@@ -1271,6 +1737,30 @@ class LoadExec:
                     yield from self._inline(fi, c, meth, s0, depth, recv=rv)
                     continue
             if isinstance(rv, tuple) and rv[0] == 'tuple' and rv[2:] == ('list',) and c.func.attr in self._SEQ_MUTATORS:
+                # a list held in a local is a value here; the names that hold this list see the change
+                how, done = c.func.attr, False
+                if how in ('append', 'extend') and len(c.args) == 1 and not c.keywords:
+                    for av, s1 in self.eval(fi, c.args[0], s0, depth):
+                        more = [av] if how == 'append' else self._elements(av)
+                        if more is None:
+                            raise _Undecided(f'`{norm(c)[:50]}`: list extended by something that is not known')
+                        s1.replace(s1.current(rv), ('tuple', list(s1.current(rv)[1]) + more, 'list'))
+                        yield ('none',), s1
+                    done = True
+                elif how == 'insert' and len(c.args) == 2 and isinstance(c.args[0], ast.Constant) and isinstance(c.args[0].value, int) \
+                        and not c.keywords:
+                    for av, s1 in self.eval(fi, c.args[1], s0, depth):
+                        els = list(s1.current(rv)[1])
+                        els.insert(c.args[0].value, av)
+                        s1.replace(s1.current(rv), ('tuple', els, 'list'))
+                        yield ('none',), s1
+                    done = True
+                elif how == 'reverse' and not c.args and not c.keywords:
+                    s0.replace(rv, ('tuple', list(rv[1])[::-1], 'list'))
+                    yield ('none',), s0
+                    done = True
+                if done:
+                    continue
                 raise _Undecided(f'`{norm(c)[:50]}`: a list of layers is changed in place')
             if isinstance(rv, tuple) and rv[0] == 'cell' and c.func.attr not in self._READS:
                 s0.heap[rv[1]].unknown = _real(s0.heap[rv[1]].unknown) or f'line {c.lineno}: `{norm(c)[:40]}` may change the data'
@@ -1284,7 +1774,11 @@ class LoadExec:
                         s.heap[v[1]].unknown = _real(s.heap[v[1]].unknown) or f'line {c.lineno}: passed to `{cn}`, which may change it'
                 yield ('unk', cn), s
 
-    def _inline(self, fi, c, callee, st, depth, recv=None, ctor=False):
+    @staticmethod
+    def _is_generator(callee) -> bool:
+        return any(isinstance(x, (ast.Yield, ast.YieldFrom)) for x in walk_no_nested(callee.node))
+
+    def _inline(self, fi, c, callee, st, depth, recv=None, ctor=False, gen=False):
         """execute a resolved callee on the arguments of call c.  recv: the receiver when it has been evaluated already;
         ctor: the callee initialises recv (`__init__` / `__post_init__`) and the call's value is the instance"""
         params = callee.params
@@ -1305,11 +1799,11 @@ class LoadExec:
             if isinstance(rv, tuple) and rv[0] == 'rec' and not ctor and isinstance(c.func, ast.Attribute):
                 target = rv[1].find_method(c.func.attr) or callee     # the method of the class the value really has
             if target is not callee:
-                yield from self._inline(fi, c, target, st, depth, recv=rv)
+                yield from self._inline(fi, c, target, st, depth, recv=rv, gen=self._is_generator(target))
                 continue
-            yield from self._enter(fi, c, callee, st, depth, implicit, rv, ctor)
+            yield from self._enter(fi, c, callee, st, depth, implicit, rv, ctor, gen)
 
-    def _enter(self, fi, c, callee, st, depth, implicit, rv, ctor):
+    def _enter(self, fi, c, callee, st, depth, implicit, rv, ctor, gen=False):
         params = callee.params
         a = callee.node.args
         names = params[implicit:]
@@ -1331,6 +1825,19 @@ class LoadExec:
         env0 = {}
         if implicit and rv is not None and params:
             env0[params[0]] = rv
+        elif implicit and params and any('classmethod' in d for d in callee.decorators()):
+            # the class the method was called through: `Name.m()`, `cls.m()` inside another classmethod, `obj.m()`
+            k = None
+            if isinstance(c.func, ast.Attribute):
+                r = c.func.value
+                held = st.env.get(r.id) if isinstance(r, ast.Name) else None
+                if isinstance(held, tuple) and held[0] == 'class':
+                    k = held[1]
+                elif isinstance(held, tuple) and held[0] == 'rec':
+                    k = held[1]
+                elif not (isinstance(r, ast.Name) and r.id in st.env):
+                    k = self.prog.resolve_class_expr(fi.module, r)
+            env0[params[0]] = ('class', k or callee.cls)
         states = [(env0, st)]
         for nm in names:
             ex = exprs.get(nm, defaults.get(nm))
@@ -1349,10 +1856,13 @@ class LoadExec:
             s.env = dict(env)
             if ctor and params:
                 s.env['@ctor'] = params[0]
+            if gen:
+                s.env['@yield'] = ('tuple', [])
             for kind, v, s2 in self.exec_block(callee, callee.node.body, s, depth + 1):
                 built = s2.env.get(params[0]) if ctor and params else None
-                s2.env = dict(saved)
-                yield (built if ctor else v if kind == 'return' else ('none',)), s2
+                yielded = s2.env.get('@yield')
+                s2.env = {k: s2.current(x) for k, x in saved.items()}
+                yield (built if ctor else s2.current(yielded) if gen else s2.current(v) if kind == 'return' else ('none',)), s2
 
     # -- statements ------------------------------------------------------------------------------------------------------
     def exec_block(self, fi, body, st, depth=0):
@@ -1372,9 +1882,20 @@ class LoadExec:
         for s in states:
             yield 'fall', None, s
 
-    def _assign(self, target, v, s):
+    def _assign(self, target, v, s, fi=None):
         if isinstance(target, ast.Name):
+            if fi is not None and any(isinstance(n, ast.Global) and target.id in n.names for n in walk_no_nested(fi.node)):
+                s.glob[(fi.module.relpath, target.id)] = v
+                self._keep(s, v, f'the module global `{target.id}`', target.lineno)
+                return
             s.env[target.id] = v
+        elif isinstance(target, ast.Attribute) and isinstance(target.value, ast.Name) \
+                and isinstance(s.env.get(target.value.id, self._class_value(fi, target.value.id)), tuple) \
+                and s.env.get(target.value.id, self._class_value(fi, target.value.id))[0] == 'class':
+            k = s.env.get(target.value.id, self._class_value(fi, target.value.id))[1]
+            slot = self._class_slot(k, target.attr)
+            s.glob[((slot[0] if slot else k).name, target.attr)] = v
+            self._keep(s, v, f'the class attribute `{k.name}.{target.attr}`', target.lineno)
         elif isinstance(target, (ast.Tuple, ast.List)) and self._elements(v) is not None \
                 and len(self._elements(v)) == len(target.elts) and not any(isinstance(t, ast.Starred) for t in target.elts):
             for t, x in zip(target.elts, self._elements(v)):
@@ -1383,7 +1904,10 @@ class LoadExec:
                 and isinstance(s.env.get(target.value.id), tuple) and s.env[target.value.id][0] == 'rec':
             rec = s.env[target.value.id]
             if s.env.get('@ctor') != target.value.id:
-                raise _Undecided(f'`{norm(target)[:40]}` of a record is assigned outside its constructor')
+                if rec[3] or self._record_frozen(rec[1]):
+                    raise _Undecided(f'`{norm(target)[:40]}` of an immutable record is assigned')
+                s.set_field(rec, target.attr, v)
+                return
             flds = [(n, x) for n, x in rec[2] if n != target.attr] + [(target.attr, v)]
             s.env[target.value.id] = ('rec', rec[1], tuple(flds), rec[3])
         elif isinstance(target, (ast.Tuple, ast.List)):
@@ -1394,12 +1918,44 @@ class LoadExec:
             if isinstance(tv, tuple) and tv[0] == 'cell':
                 s.heap[tv[1]].unknown = s.heap[tv[1]].unknown or _Extra(f'line {target.lineno}: entry {norm(target)[:40]} is set by hand')
 
+    def _iterate(self, fi, stmt, st, depth):
+        """(elements or None, state) for the sequence a `for` statement walks: a sequence the execution knows, or an
+        instance whose class defines `__iter__` as a generator"""
+        if stmt.orelse:
+            yield None, st
+            return
+        for itv, s0 in self.eval(fi, stmt.iter, st, depth):
+            seq = self._elements(itv)
+            it = itv[1].find_method('__iter__') if seq is None and isinstance(itv, tuple) and itv[0] == 'rec' else None
+            if it is not None and self._is_generator(it) and depth < 4:
+                call = ast.copy_location(ast.Call(func=ast.Attribute(value=stmt.iter, attr='__iter__', ctx=ast.Load()), args=[], keywords=[]),
+                                         stmt.iter)
+                ast.fix_missing_locations(call)
+                for v, s1 in self._inline(fi, call, it, s0, depth, recv=itv, gen=True):
+                    yield self._elements(v), s1
+            else:
+                yield seq, s0
+
+    def _class_value(self, fi, name):
+        r = self.prog.resolve_name(fi.module, name) if fi is not None else None
+        return ('class', r) if isinstance(r, ClassInfo) else None
+
     def exec_stmt(self, fi, stmt, st, depth):
         if isinstance(stmt, (ast.Pass, ast.Global, ast.Nonlocal, ast.Import, ast.ImportFrom, ast.Assert)):
             yield 'fall', None, st
         elif isinstance(stmt, ast.Expr):
             if isinstance(stmt.value, ast.Constant):
                 yield 'fall', None, st
+                return
+            if isinstance(stmt.value, (ast.Yield, ast.YieldFrom)):
+                if '@yield' not in st.env:
+                    raise _Undecided(f'`{norm(stmt)[:50]}` outside a generator the execution entered')
+                for v, s in self.eval(fi, stmt.value.value, st, depth):
+                    more = [v if v is not None else ('none',)] if isinstance(stmt.value, ast.Yield) else self._elements(v)
+                    if more is None:
+                        raise _Undecided(f'`{norm(stmt)[:50]}`: yields from a sequence the execution does not know')
+                    s.env['@yield'] = ('tuple', list(s.env['@yield'][1]) + more)
+                    yield 'fall', None, s
                 return
             for v, s in self.eval(fi, stmt.value, st, depth):
                 yield 'fall', None, s
@@ -1410,24 +1966,28 @@ class LoadExec:
             tgts = stmt.targets if isinstance(stmt, ast.Assign) else [stmt.target]
             for v, s in self.eval(fi, stmt.value, st, depth):
                 for t in tgts:
-                    self._assign(t, v, s)
+                    self._assign(t, v, s, fi)
                 yield 'fall', None, s
         elif isinstance(stmt, ast.AugAssign):
             if isinstance(stmt.op, ast.BitOr) and isinstance(stmt.target, ast.Name):
                 for bv, s1 in self.eval(fi, stmt.target, st, depth):
                     for ov, s2 in self.eval(fi, stmt.value, s1, depth):
                         if isinstance(bv, tuple) and bv[0] == 'cell' and isinstance(ov, tuple) and ov[0] == 'cell':
-                            self._merge(s2, bv, ov, 'shallow', stmt.lineno)
+                            self._merge(s2, bv, ov, 'shallow', stmt.lineno, fi)
                         yield 'fall', None, s2
             elif isinstance(stmt.op, ast.Add) and isinstance(stmt.target, ast.Name) and self._elements(st.env.get(stmt.target.id)) is not None:
                 cur = st.env[stmt.target.id]
-                if cur[0] != 'tuple' or cur[2:] == ('list',):
-                    raise _Undecided(f'`{norm(stmt)[:50]}`: a list of layers is changed in place')
+                if cur[0] != 'tuple':
+                    raise _Undecided(f'`{norm(stmt)[:50]}`: a record of layers is extended')
                 for ov, s2 in self.eval(fi, stmt.value, st, depth):
                     more = self._elements(ov)
                     if more is None:
                         raise _Undecided(f'`{norm(stmt)[:50]}`: sequence extended by something that is not known')
-                    s2.env[stmt.target.id] = ('tuple', list(cur[1]) + more)
+                    if cur[2:] == ('list',):    # in place: every name that holds this list sees it
+                        now = s2.current(cur)
+                        s2.replace(now, ('tuple', list(now[1]) + more, 'list'))
+                    else:
+                        s2.env[stmt.target.id] = ('tuple', list(cur[1]) + more)
                     yield 'fall', None, s2
             else:
                 yield 'fall', None, st
@@ -1444,6 +2004,8 @@ class LoadExec:
                 nxt = []
                 for s in states:
                     for v, s2 in self.eval(fi, it.context_expr, s, depth):
+                        if isinstance(v, tuple) and v[0] == 'ctx':
+                            v = v[1]
                         if it.optional_vars is not None:
                             self._assign(it.optional_vars, v, s2)
                         nxt.append(s2)
@@ -1477,8 +2039,7 @@ class LoadExec:
                 for s in states:
                     yield 'fall', None, s
             else:
-                for itv, st in (self.eval(fi, stmt.iter, st, depth) if not stmt.orelse else [(None, st)]):
-                    seq = self._elements(itv)
+                for seq, st in self._iterate(fi, stmt, st, depth):
                     if seq is not None:
                         # a sequence the execution knows (a tuple held in a local, the fields of a NamedTuple, ...)
                         states = [st]
@@ -1498,9 +2059,11 @@ class LoadExec:
                         continue
                     # a loop over something else: whatever it touches is no longer known
                     for x in ast.walk(stmt):
-                        if isinstance(x, ast.Name) and isinstance(st.env.get(x.id), tuple) and st.env[x.id][0] == 'cell':
-                            cell = st.heap[st.env[x.id][1]]
-                            cell.unknown = _real(cell.unknown) or f'line {stmt.lineno}: used inside a loop that is not over a literal sequence'
+                        if isinstance(x, ast.Name):
+                            for ci in self._cells_of(st.env.get(x.id)):
+                                cell = st.heap[ci]
+                                cell.unknown = _real(cell.unknown) or (f'line {stmt.lineno}: used inside a loop over `{norm(stmt.iter)[:40]}`, '
+                                                                       'a sequence the execution does not know')
                     yield 'fall', None, st
         elif isinstance(stmt, ast.Raise):
             return
@@ -1512,9 +2075,9 @@ class LoadExec:
     def _final(self, c, v, s):
         if isinstance(v, tuple) and v[0] == 'cell':
             cell = s.heap[v[1]]
-            self.finals.append((c.lineno, cell.layers, cell.shallow, cell.unknown, s.absent, s.notes))
+            self.finals.append((c.lineno, cell.layers, cell.shallow, cell.unknown, s.absent, s.notes, cell.stale))
         else:
-            self.finals.append((c.lineno, (), None, f'line {c.lineno}: cannot tell what `{norm(c.args[0] if c.args else c)[:40]}` holds', s.absent, s.notes))
+            self.finals.append((c.lineno, (), None, f'line {c.lineno}: cannot tell what `{norm(c.args[0] if c.args else c)[:40]}` holds', s.absent, s.notes, None))
 
     def run(self):
         ld = self.ld
@@ -1567,7 +2130,12 @@ def rule_precedence(ctx, prog, m):
     names = {'D': 'defaults', 'F': 'file', 'K': 'keyword arguments'}
     seen = set()
     n_bad = 0
-    for line, layers, shallow, unknown, absent, notes in finals:
+    stale_seen = set()
+    for line, layers, shallow, unknown, absent, notes, stale in finals:
+        if stale and str(stale) not in stale_seen:
+            stale_seen.add(str(stale))
+            at = stale.fi if stale.fi is not None and not stale.fi.qualname.startswith('<') else ld
+            ctx.ob('C18-R4', at, 'every load starts from freshly read data', False, str(stale), line=stale.line)
         live = [x for x in layers if x not in absent]
         dedup = []
         for x in live:
@@ -1590,6 +2158,8 @@ def rule_precedence(ctx, prog, m):
         if shallow:
             why = (f'a merge step is shallow ({shallow}): a keyword (or file) section replaces the whole section below it, so '
                    'nested keys set by the lower layer are lost')
+            if getattr(shallow, 'fi', None) is not None and not shallow.fi.qualname.startswith('<'):
+                where, line = shallow.fi, shallow.line     # the construct that merges one level deep
         elif dedup != want:
             missing = [names[x] for x in want if x not in dedup]
             why = (f'the data handed to validation is {desc}' + (f' (when {cond})' if cond else '') +
@@ -1768,6 +2338,38 @@ def run(ctx):
             return True
         return any(not _is_logging(c) for c in cs)
 
+    def heads_of(node):
+        return [h for h in {'stmt': [node.stmt], 'test': [getattr(node.stmt, 'test', None)], 'iter': [getattr(node.stmt, 'iter', None)],
+                            'with': [i.context_expr for i in getattr(node.stmt, 'items', [])],
+                            'match': [getattr(node.stmt, 'subject', None)]}.get(node.kind, [node.stmt]) if h is not None]
+
+    def failure_of(f, node):
+        """(callee, exception) when the node calls a repository function that itself raises somewhere below; a
+        `raise` statement names its own exception.  Only to pick the statement to show and to say how it fails."""
+        if isinstance(node.stmt, ast.Raise) and node.kind == 'stmt':
+            e = node.stmt.exc
+            return ('', norm(e.func if isinstance(e, ast.Call) else e) if e is not None else 're-raise')
+        for h in heads_of(node):
+            for c in calls_in(h):
+                callee = resolve_call(prog, f, c)
+                if callee is None:
+                    continue
+                for g_ in closure(prog, [callee]):
+                    for x in walk_no_nested(g_.node):
+                        if isinstance(x, ast.Raise) and x.exc is not None:
+                            return (g_.qualname, norm(x.exc.func if isinstance(x.exc, ast.Call) else x.exc))
+        return None
+
+    def worst(f, nodes):
+        """of the fallible statements, the one to show: one that is known to raise, else the first one"""
+        ranked = sorted(nodes, key=lambda n_: (failure_of(f, n_) is None, n_.line))
+        n_ = ranked[0]
+        fo = failure_of(f, n_)
+        how = ''
+        if fo is not None:
+            how = f' ({fo[0]} raises {fo[1]})' if fo[0] else f' ({fo[1]})'
+        return n_, how
+
     stage_of_pub = None
     for fi, st in pubs:
         # which pipeline stage does this function belong to?
@@ -1816,10 +2418,12 @@ def run(ctx):
                 if ok_h:
                     covered.append(x)
             bad = [x for x in fall if x not in covered]
+            shown, how = worst(fi, bad) if bad else (None, '')
             ctx.ob('C18-R1', fi, 'nothing fallible follows the publish', not bad,
                    'only `return self` follows' if not bad else
-                   f'`{bad[0].text()[:70]}` (line {int(bad[0].line)}) can fail after the singleton was set',
-                   line=(bad[0].line if bad else st.lineno))
+                   f'`{shown.text()[:110]}` (line {int(shown.line)}) can fail{how} after `{norm(st)}` (line {st.lineno}) set the '
+                   'singleton: a load that fails there leaves the system configured, and the next valid load is refused',
+                   line=(shown.line if bad else st.lineno))
         if fi != pipeline[stage]:
             # published from a helper: the validator must not do fallible work after calling it
             v = pipeline[stage]
@@ -1831,9 +2435,11 @@ def run(ctx):
                         for c in calls_in(n.stmt)):
                     after = gv.reachable(n.id, labels={'n', 't', 'f'}) - {n.id}
                     bad = [gv.nodes[x] for x in after if fallible(gv.nodes[x])]
+                    shown, how = worst(v, bad) if bad else (None, '')
                     ctx.ob('C18-R1', v, f'nothing fallible after the publishing call {n.text()[:50]}', not bad,
                            'publishing helper is the last fallible step' if not bad else
-                           f'`{bad[0].text()[:70]}` can fail after the helper set the singleton',
+                           f'`{shown.text()[:110]}` (line {int(shown.line)}) can fail{how} after the helper set the singleton: a load '
+                           'that fails there leaves the system configured, and the next valid load is refused',
                            line=n.line)
     # subclass validators would run after the parent's
     for c in prog.subclasses_of('Config'):
